@@ -3,6 +3,10 @@ package rules
 import (
 	"fmt"
 
+	"golang.org/x/tools/go/ssa"
+
+	"verif/wscheck/internal/load"
+
 	"verif/wscheck/internal/fold"
 )
 
@@ -21,6 +25,7 @@ func init() {
 			c17Selection(c)
 			c17UnsafeViews(c)
 			configReadOnlyRules(c, "C11")
+			c11DebugPassthrough(c)
 		},
 	})
 }
@@ -110,4 +115,170 @@ func sizeArgIsNonZeroOf(c *Ctx, fn *ssaFunction, get, field, constName string) (
 		}
 	}
 	return false, get + " call not found"
+}
+
+// c11DebugPassthrough: the debug upgrader sniffs the request and then lets the
+// real Upgrader run on a reader / writer pair built from the connection. For
+// the wrapped handshake to see what the plain one would see, the reader must
+// continue with the connection itself after the sniffed bytes are replayed
+// (the sniffer may stop early: net/http rejects requests ws.Upgrader accepts),
+// and the writer must write to the connection.
+func c11DebugPassthrough(c *Ctx) {
+	const rule = "C11.debug-upgrader-passthrough"
+	c.R.Rule(rule, 1, "the reader and writer DebugUpgrader hands to the Upgrader end in the connection itself")
+	f := c.method(rule, wsutil, "DebugUpgrader", "Upgrade")
+	if f == nil || len(f.Params) < 2 {
+		return
+	}
+	conn := f.Params[1]
+	var reaches func(v ssa.Value, writer bool, depth int) bool
+	// elems returns the values stored into the variadic array behind s
+	elems := func(s ssa.Value) []ssa.Value {
+		sl, ok := s.(*ssa.Slice)
+		if !ok {
+			return nil
+		}
+		al, ok := sl.X.(*ssa.Alloc)
+		if !ok || al.Referrers() == nil {
+			return nil
+		}
+		byIdx := map[int64]ssa.Value{}
+		max := int64(-1)
+		for _, r := range *al.Referrers() {
+			ia, ok := r.(*ssa.IndexAddr)
+			if !ok || ia.Referrers() == nil {
+				continue
+			}
+			k, ok := ia.Index.(*ssa.Const)
+			if !ok {
+				return nil
+			}
+			for _, rr := range *ia.Referrers() {
+				if st, ok := rr.(*ssa.Store); ok && st.Addr == ssa.Value(ia) {
+					byIdx[k.Int64()] = st.Val
+					if k.Int64() > max {
+						max = k.Int64()
+					}
+				}
+			}
+		}
+		out := make([]ssa.Value, max+1)
+		for i := range out {
+			out[i] = byIdx[int64(i)]
+		}
+		return out
+	}
+	reaches = func(v ssa.Value, writer bool, depth int) bool {
+		if v == nil || depth > 20 {
+			return false
+		}
+		switch x := v.(type) {
+		case *ssa.Parameter:
+			return x == conn
+		case *ssa.ChangeInterface:
+			return reaches(x.X, writer, depth+1)
+		case *ssa.MakeInterface:
+			return reaches(x.X, writer, depth+1)
+		case *ssa.Phi:
+			for _, e := range x.Edges {
+				if !reaches(e, writer, depth+1) {
+					return false
+				}
+			}
+			return len(x.Edges) > 0
+		case *ssa.UnOp:
+			// load of a local cell: every value stored into it
+			if al, ok := x.X.(*ssa.Alloc); ok && al.Referrers() != nil {
+				n := 0
+				for _, r := range *al.Referrers() {
+					if st, ok := r.(*ssa.Store); ok && st.Addr == ssa.Value(al) {
+						n++
+						if !reaches(st.Val, writer, depth+1) {
+							return false
+						}
+					}
+				}
+				return n > 0
+			}
+		case *ssa.Call:
+			callee := x.Call.StaticCallee()
+			if callee == nil {
+				return false
+			}
+			switch callee.String() {
+			case "io.MultiReader":
+				es := elems(x.Call.Args[0])
+				// the last reader is the one that keeps delivering after the replayed bytes
+				return !writer && len(es) > 0 && reaches(es[len(es)-1], writer, depth+1)
+			case "io.MultiWriter":
+				if !writer {
+					return false
+				}
+				for _, e := range elems(x.Call.Args[0]) {
+					if reaches(e, writer, depth+1) {
+						return true
+					}
+				}
+				return false
+			case "io.TeeReader":
+				return !writer && reaches(x.Call.Args[0], writer, depth+1)
+			}
+		}
+		return false
+	}
+	found := false
+	for _, b := range f.Blocks {
+		for _, in := range b.Instrs {
+			ci, ok := in.(ssa.CallInstruction)
+			if !ok {
+				continue
+			}
+			callee := ci.Common().StaticCallee()
+			if callee == nil || callee.Name() != "Upgrade" || !load.InModule(callee) || len(ci.Common().Args) < 2 {
+				continue
+			}
+			found = true
+			pos := c.P.Pos(in.Pos())
+			// the argument is an interface made from a struct{io.Reader; io.Writer} literal
+			arg := ci.Common().Args[len(ci.Common().Args)-1]
+			mi, ok := arg.(*ssa.MakeInterface)
+			if !ok {
+				c.R.Unknown(rule, rule+"/argument", pos, "the connection argument of the inner Upgrade is not a struct literal of reader and writer")
+				continue
+			}
+			var cell *ssa.Alloc
+			if ld, ok := mi.X.(*ssa.UnOp); ok {
+				cell, _ = ld.X.(*ssa.Alloc)
+			}
+			if cell == nil || cell.Referrers() == nil {
+				c.R.Unknown(rule, rule+"/argument", pos, "the connection argument of the inner Upgrade cannot be followed to its reader and writer")
+				continue
+			}
+			parts := map[int]ssa.Value{}
+			for _, r := range *cell.Referrers() {
+				fa, ok := r.(*ssa.FieldAddr)
+				if !ok || fa.Referrers() == nil {
+					continue
+				}
+				for _, rr := range *fa.Referrers() {
+					if st, ok := rr.(*ssa.Store); ok && st.Addr == ssa.Value(fa) {
+						parts[fa.Field] = st.Val
+					}
+				}
+			}
+			if reaches(parts[0], false, 0) {
+				c.R.OK(rule, rule+"/reader", pos, "the reader is the connection, or replays the sniffed bytes and then continues with the connection")
+			} else {
+				c.R.Fail(rule, rule+"/reader", pos, "the reader handed to the Upgrader does not continue with the connection after the sniffed bytes: when the sniffer stops early (net/http refuses a request the Upgrader accepts) or the request arrives in several reads, the wrapped handshake fails where the plain one succeeds")
+			}
+			if reaches(parts[1], true, 0) {
+				c.R.OK(rule, rule+"/writer", pos, "the writer is the connection, or a MultiWriter that includes it")
+			} else {
+				c.R.Fail(rule, rule+"/writer", pos, "the writer handed to the Upgrader does not write to the connection")
+			}
+		}
+	}
+	if !found {
+		c.R.Unknown(rule, rule+"/anchor", c.P.FuncPos(f), "DebugUpgrader.Upgrade no longer calls an in-module Upgrade")
+	}
 }
